@@ -22,6 +22,8 @@ func main() {
 		for k := range props.All() {
 			fmt.Println(k)
 		}
+	case "editchild":
+		props.EditChild(os.Args[2:])
 	case "srvdebug":
 		props.SrvDebug(os.Args[2:])
 	case "srvchild":
